@@ -289,6 +289,46 @@ def r8(ctx):
     ctx.check(ok, "selected_iter:only-Selected", "selected_iter filters on state == Selected", si_.where(line=si_.line))
 
 
+def r9(ctx):
+    """Relative-time event variations (g2v3/g4v3): the 16-bit offset written is `event time - CTO`, computed only when
+    it is representable (CTO <= time, difference <= 0xFFFF, same time quality); otherwise a new CTO header is started."""
+    prog = ctx.prog
+    bd = prog.body("event::write_fn::write_cto")
+    sym = ctx.sym(bd)
+    is_time = lambda x: mentions_call(x, r"ToVariationCto::get_time$")
+    is_cto = lambda x: mentions(x, lambda s: s[0] in ("param", "var") and s[1] == "cto")
+    sites = call_sites(bd, r"ToVariationCto::to_cto_variation$")
+    if len(sites) != 1:
+        raise AnchorError("write_cto: expected one to_cto_variation call, found %d" % len(sites))
+    b = sites[0]
+    e = sym.call_expr(b.term)
+    off = e[2][1]
+    subs = [x for x in expr_walk(off) if (x[0] == "bin" and x[1] in ("Sub", "SubWithOverflow", "SubUnchecked")) or (x[0] == "call" and re.search(r"::(checked|wrapping|saturating|overflowing)_sub$", x[1] or ""))]
+    def operands(x):
+        return (x[2], x[3]) if x[0] == "bin" else (x[2][0], x[2][1])
+    good = [x for x in subs if is_time(operands(x)[0]) and not is_cto(operands(x)[0]) and is_cto(operands(x)[1]) and not is_time(operands(x)[1])]
+    ctx.check(len(good) == 1 and len(subs) == 1, "cto-offset:data", "offset = %s" % expr_str(off)[:160], bd.where(b.idx), bad_detail="the relative time written is not `event time - cto`: %s" % expr_str(off)[:200])
+    checked = any(x[0] == "call" and x[1].endswith("checked_sub") for x in good)
+    ts = lambda f: (lambda x: f(x) and mentions_call(x, r"Time::timestamp$"))
+    want = [("time quality equal", g_rel("Eq", lambda x: is_time(x) and mentions_call(x, r"Time::is_synchronized$"), lambda x: is_cto(x) and mentions_call(x, r"Time::is_synchronized$")))]
+    if checked:
+        want.append(("checked_sub is Some", g_is(lambda x: mentions_call(x, r"checked_sub$"), "Some")))
+    else:
+        want.append(("cto <= time", g_rel(("Le", "Eq"), ts(lambda x: is_cto(x) and not is_time(x)), ts(lambda x: is_time(x) and not is_cto(x)))))
+    ctx.require_guards(bd, b.idx, want, "cto-offset", "relative time offset")
+    narrow = [("difference <= u16::MAX", lambda g: (g.kind == "rel" and g.op in ("Le", "Lt") and any(x in subs for x in expr_walk(g.a)) and (mentions_const(g.b, 65535) or (g.op == "Lt" and mentions_const(g.b, 65536)))) or (g.kind == "is" and g.name == "Ok" and mentions_call(g.a, r"try_from$|try_into$") and any(x in subs for x in expr_walk(g.a))))]
+    ctx.require_guards(bd, b.idx, narrow, "cto-offset:fits", "relative time offset")
+    # and the variation built from it carries that offset and the event's own flags
+    for path in ("BinaryInput", "DoubleBitBinaryInput"):
+        im = [x for x in prog.bodies_matching(r"ToVariationCto<.*>>::to_cto_variation$") if path in x.path and ("for %s" % path in x.path or "<%s as" % path in x.path.replace("app::measurement::", "").replace("dnp3::", ""))]
+        for x in im:
+            sx = ctx.sym(x)
+            for blk, si, st in agg_sites(x, r"Group[24]Var3$"):
+                ex = sx.rvalue_expr(st.rv)
+                f = dict(ex[3])
+                ok = f.get("time") is not None and f["time"][0] == "param" and f.get("flags") is not None and mentions_call(f["flags"], r"get_wire_flags$") and mentions(f["flags"], lambda s_: s_[0] == "param" and s_[1] == "self")
+                ctx.check(ok, "cto-variation:%s" % path, "g2v3/g4v3 built from (self flags, given offset): %s" % expr_str(ex)[:120], x.where(blk.idx))
+
 RULES = [
     ("C03.R1", "T5", "records are removed only by clear_written/insert; clear_written only via the two confirm sites", r1),
     ("C03.R2", "T2", "release sites dominated by sequence-matched confirms", r2),
@@ -298,4 +338,5 @@ RULES = [
     ("C03.R6", "T2", "overflow displaces same type, only at capacity, and is reported", r6),
     ("C03.R7", "T3", "counter discipline on removal (total and written)", r7),
     ("C03.R8", "T2+T5", "Written set only after a successful write; selection/iteration state filters", r8),
+    ("C03.R9", "T8+T2", "relative-time events: offset = time - CTO, only when representable and of equal time quality", r9),
 ]
